@@ -187,6 +187,7 @@ namespace BitSerializer::Convert::Utf
 				}
 
 				// Decode following tails
+				const int sequenceSize = tails;
 				for (; tails > 1; --tails)
 				{
 					if (in == end) {
@@ -207,6 +208,11 @@ namespace BitSerializer::Convert::Utf
 						}
 					}
 					++in;
+				}
+
+				// Overlong forms and code points above U+10FFFF are prohibited (RFC 3629)
+				if ((sequenceSize == 2 && sym < 0x80) || (sequenceSize == 3 && sym < 0x800) || (sequenceSize == 4 && (sym < 0x10000 || sym > 0x10FFFF))) {
+					isWrongSeq = true;
 				}
 
 				// Error handling when wrong sequence or when surrogate pair (prohibited in the UTF-8)
